@@ -84,6 +84,8 @@ pub enum Ty {
     /// C string: a definite byte string whose only NUL is its last byte; the value is the rest
     CStr,
     Res(Box<Ty>, Box<Ty>),
+    /// `core::ops::Bound<T>`: definite [0, T] = Included, [1, T] = Excluded, [2, any item] = Unbounded
+    Bound(Box<Ty>),
     Range(Box<Ty>),
     Duration,
     // accessor-only pseudo types
@@ -274,6 +276,19 @@ pub fn model(ty: &Ty, it: &Item) -> Exp {
                     Exp::Err => Exp::Err,
                     _ => Exp::Any(None),
                 },
+                _ => Exp::Err,
+            },
+            _ => Exp::Err,
+        },
+        Ty::Bound(t) => match it {
+            Item::Array { w: Some(_), items } if items.len() == 2 => match &items[0] {
+                Item::UInt { v, .. } if *v < 2 => match model(t, &items[1]) {
+                    Exp::Val(x) => Exp::Val(V::Seq(vec![V::I(*v as i128), x])),
+                    Exp::Err => Exp::Err,
+                    _ => Exp::Any(None),
+                },
+                // the payload of `Unbounded` is skipped, whatever single item it is
+                Item::UInt { v: 2, .. } => Exp::Val(V::Seq(vec![V::I(2)])),
                 _ => Exp::Err,
             },
             _ => Exp::Err,
@@ -562,6 +577,15 @@ impl<T: ToV, E: ToV> ToV for Result<T, E> {
         match self {
             Ok(x) => V::Seq(vec![V::I(0), x.to_v()]),
             Err(x) => V::Seq(vec![V::I(1), x.to_v()]),
+        }
+    }
+}
+impl<T: ToV> ToV for std::ops::Bound<T> {
+    fn to_v(&self) -> V {
+        match self {
+            std::ops::Bound::Included(x) => V::Seq(vec![V::I(0), x.to_v()]),
+            std::ops::Bound::Excluded(x) => V::Seq(vec![V::I(1), x.to_v()]),
+            std::ops::Bound::Unbounded => V::Seq(vec![V::I(2)]),
         }
     }
 }
@@ -926,6 +950,8 @@ pub fn targets() -> Vec<Target> {
         tgt!(minicbor::data::Tagged<24, String>, Ty::Tagged(24, bx(Str))),
         tgt!(minicbor::data::Tagged<2, Vec<u64>>, Ty::Tagged(2, bx(Seq(bx(U64))))),
         tgt!(Result<u64, String>, Res(bx(U64), bx(Str))),
+        tgt!(std::ops::Bound<u64>, Ty::Bound(bx(U64))),
+        tgt!(std::ops::Bound<String>, Ty::Bound(bx(Str))),
         tgt!(std::ops::Range<u64>, Ty::Range(bx(U64))),
         tgt!(std::ops::Range<Option<u8>>, Ty::Range(bx(Opt(bx(U8))))),
         tgt!(std::time::Duration, Ty::Duration),
@@ -1045,7 +1071,18 @@ pub fn shaped_item(rng: &mut Rng) -> Item {
             Item::map((0..n).map(|_| (uint(rng), if rng.chance(4, 5) { text(rng) } else { uint(rng) })).collect())
         }
         5 => Item::tag(*rng.pick(&[2u64, 24, 3]), if rng.bool() { uint(rng) } else { text(rng) }),
-        6 => Item::array(vec![Item::uint(rng.below(3)), if rng.bool() { uint(rng) } else { text(rng) }]),
+        6 if rng.bool() => Item::array(vec![Item::uint(rng.below(3)), if rng.bool() { uint(rng) } else { text(rng) }]),
+        6 => {
+            // two-element "enum" arrays whose payload is a container of its own (Result, Bound::Unbounded)
+            let n = rng.below(4) as usize;
+            let payload = match rng.below(4) {
+                0 => Item::array((0..n).map(|_| uint(rng)).collect()),
+                1 => Item::map((0..n).map(|_| (uint(rng), text(rng))).collect()),
+                2 => Item::tag(24, Item::array(vec![text(rng)])),
+                _ => Item::array(vec![Item::array((0..n).map(|_| uint(rng)).collect()), text(rng)]),
+            };
+            Item::array(vec![Item::uint(rng.below(4)), payload])
+        }
         7 => Item::array(vec![uint(rng), Item::uint(*rng.pick(&[0u64, 1, 999_999_999, 1_000_000_000, 4_294_967_295, 4_294_967_296]))]),
         8 => Item::array(vec![Item::uint(rng.below(256)), text(rng)]),
         9 => Item::array(vec![uint(rng), Item::bool(rng.bool()), Item::int(vcore::gen::gen_int(rng, 64, true))]),
